@@ -225,6 +225,60 @@ func genC16(cs *CaseSet, rng *Rng, tier string, dir string) {
 			Obs: [][][]byte{{field, auth[:]}}, NonTrivial: popcount(exp) >= 1})
 	}
 
+	// a session is connected while an administrator gives its account other privileges (SetUser): the bitmap pushed to
+	// that session in the user-access transaction is the one its requests are then authorised with
+	must(am2.Create(hotline.Account{Login: "adm16", Name: "adm16", Password: hotline.HashAndSalt([]byte("")), Access: hotline.AccessBitmap{255, 255, 255, 255, 255, 255, 255, 255}}))
+	adminW := env.Connect("10.7.250.1:4100")
+	if !adminW.Login("adm16", "", RField{102, []byte("a")}, RField{104, []byte{0, 1}}) {
+		panic("admin login failed")
+	}
+	nP := 24
+	if tier == "thorough" {
+		nP = 150
+	}
+	for k := 0; k < nP; k++ {
+		it := items[rng.Intn(len(items))]
+		w := env.Connect(fmt.Sprintf("10.7.%d.%d:4200", 100+k/250, k%250+1))
+		if !w.Login(it.login, "", RField{102, []byte("n")}, RField{104, []byte{0, 1}}) {
+			w.Close()
+			continue
+		}
+		w.WaitFrames(3, 2*time.Second)
+		w.WaitQuiet(10*time.Millisecond, time.Second)
+		fs0, _ := w.Frames()
+		var nb hotline.AccessBitmap
+		copy(nb[:], rng.Bytes(8))
+		if k%3 == 0 { // one privilege fewer than now
+			nb = am2.Get(it.login).Access
+			nb[rng.Intn(5)] &^= 1 << uint(rng.Intn(8))
+		}
+		adminW.Send(353, RField{105, obfuscate([]byte(it.login))}, RField{102, []byte(it.login)}, RField{110, nb[:]}, RField{106, []byte{0}})
+		adminW.Ping()
+		var field []byte
+		for dl := time.Now().Add(2 * time.Second); time.Now().Before(dl) && field == nil; time.Sleep(300 * time.Microsecond) {
+			fs, _ := w.Frames()
+			for _, f := range fs[len(fs0):] {
+				if f.Type == 354 {
+					field, _ = f.Field(110)
+				}
+			}
+		}
+		var auth hotline.AccessBitmap
+		for _, c := range env.Srv.ClientMgr.List() {
+			if c.Account != nil && c.Account.Login == it.login {
+				for i := 0; i < 64; i++ {
+					if c.Authorize(i) {
+						auth.Set(i)
+					}
+				}
+			}
+		}
+		w.Close()
+		cs.Add(Case{Kind: "wire-set-user-push", Ops: []Op{mkOp(3, "set-user-access-push", nb[:])},
+			Obs: [][][]byte{{field, auth[:]}}, NonTrivial: popcount(nb) >= 1})
+	}
+	adminW.Close()
+
 	// an account of the RUNNING server is given other privileges (what SetUser does): the bitmap the server then
 	// decides with, and the one a restart reads back, are the new one - no privilege of the old one survives
 	nU := 60
